@@ -230,7 +230,11 @@ func (cache *headersCache) getHeadersAndHashesByNonceAndShardId(nonce uint64, sh
 }
 
 func (cache *headersCache) keys(shardId uint32) []uint64 {
-	shardMap := cache.getShardMap(shardId)
+	// read-only access: the callers hold only the read lock, so the shard map must not be created here
+	shardMap, ok := cache.headersNonceCache[shardId]
+	if !ok {
+		return make([]uint64, 0)
+	}
 
 	return shardMap.keys()
 }
